@@ -131,14 +131,8 @@ class C17(Prop):
                 arr["vkind"] = rng.choice(["f", "i"])
                 nn = int(np.prod(shape))
                 dens = rng.choice([0.0, 0.3, 0.5, 1.0])
-                kinds = set("s" if a_["kind"] == "O" else "n" for a_ in arr["axes"])
-                if rank >= 2 and len(kinds) == 2:
-                    # TODO(defect): N-d compress over axes of mixed string / numeric kinds turns the numeric labels
-                    # into their string representation (('3', 'a') for the cell labelled (3, 'a')); skipped for now
-                    for a_ in arr["axes"]:
-                        if a_["kind"] == "O":
-                            a_.update(gen.rand_axis(rng, a_["name"], kind=rng.choice(["i", "f"]), n=len(a_["labels"])))
-                            a_.pop("ldtype", None)
+                # axes of mixed string / numeric kinds included: every component of a cell's tuple label keeps its type
+                # ((3, 'a'), not ('3', 'a'))
                 yield {"op": "compress", "array": arr, "mask": [rng.random() < dens for _ in range(nn)],
                        "maskform": rng.choice(["array", "dimarray", "getitem", "getitem_dimarray"])}
             elif r < 0.76:
